@@ -599,6 +599,9 @@ type panicMarker struct{ o Outcome }
 // SymFloatV is a float64 whose value equals the (symbolic) integer I exactly (|I| < 2^53 assumed by users).
 type SymFloatV struct{ I *Term }
 
+// OpaqueFloatV is a float64 whose value is not modelled; using it in arithmetic or comparisons aborts the harness.
+type OpaqueFloatV struct{ Why string }
+
 func base64StdDecode(s string) ([]byte, error) {
 	return stdB64.DecodeString(s)
 }
@@ -609,6 +612,9 @@ func init() {
 		target := args[1].(*IfaceV)
 		root, ok := e.docOf(st, data)
 		if !ok {
+			if e.plainSymbolic(st, data) {
+				panic(e.abort("J2: json.Unmarshal of bytes whose JSON structure is symbolic"))
+			}
 			return one(st, e.newError(st, e.StrConst("json: invalid JSON input")))
 		}
 		return e.unmarshalInto(st, root, target)
